@@ -60,7 +60,7 @@ Init == /\ h = <<>>
 Measure(a) ==
   /\ NMeas(h) < MaxMeas
   /\ LET o == NMeas(h) + 1
-         m == [op |-> "M", o |-> o, g |-> o, s |-> a.s, v |-> a.v, cls |-> a.cls, c |-> a.c]
+         m == [op |-> "M", o |-> o, g |-> o, s |-> a.s, v |-> a.v, cls |-> a.cls, c |-> a.c, ov |-> FALSE]
          p == Kept(Cfg, a.s)
      IN /\ h' = Append(h, m)
         /\ act' = m
